@@ -38,7 +38,115 @@ var Quirks = []Quirk{
 	{ID: "C01-grpc-only-design-example-main", Detect: isGRPCOnly, SigAny: []string{"cmd: undefined: _"}},
 	{ID: "C01-gen-hangs-grpc-recursive-type", Detect: hasGRPCRecursiveType, SigAny: []string{"timeout"}},
 	{ID: "C01-response-cookie-nonstring", Detect: hasNonStringResponseCookie, SigAny: []string{"server/encode_decode"}},
+	{ID: "C01-param-named-like-generated-local", Detect: hasParamNamedLikeLocal, SigAny: []string{"redeclared", "no new variables", "undefined (type", "cannot use", "invalid operation", "undefined: _"}},
+	{ID: "C01-union-in-inline-object", Detect: hasUnionInInlineObject, SigAny: []string{"struct{…}"}},
+	{ID: "C01-union-in-body-fields", Detect: hasUnionInBodyFields, SigAny: []string{"== nil (mismatched types", "cannot indirect"}},
+	{ID: "C01-bytes-param-with-length-validation", Detect: hasBytesParamWithLength, SigAny: []string{"client/cli: undefined: _"}},
 	{ID: "C01-result-type-required-validated-response-header", Detect: hasResultTypeRequiredValidatedHeader, SigAny: []string{"client/encode_decode: invalid operation: _ != nil (mismatched types"}},
+}
+
+// GeneratedLocals are identifiers the generated request/response encoders and
+// decoders declare themselves; an attribute carried in a path segment, query
+// parameter or header gets a Go variable named after it (lower camel case) in
+// the same function.
+var GeneratedLocals = map[string]bool{"r": true, "payload": true, "body": true, "err": true, "goa": true, "ctx": true, "mux": true, "ok": true, "p": true, "params": true, "req": true, "res": true, "resp": true, "v": true}
+
+// lowerCamel approximates codegen.Goify(name, false) for the names the generator uses.
+func lowerCamel(s string) string {
+	var b strings.Builder
+	up := false
+	for i, r := range s {
+		switch {
+		case r == '_' || r == '-' || r == ' ' || r == '.':
+			up = b.Len() > 0
+		case up:
+			b.WriteString(strings.ToUpper(string(r)))
+			up = false
+		case i == 0 || b.Len() == 0:
+			b.WriteString(strings.ToLower(string(r)))
+		default:
+			b.WriteRune(r)
+		}
+	}
+	return b.String()
+}
+
+// hasParamNamedLikeLocal: a payload attribute carried in a path segment, query
+// parameter or header (or a result attribute carried in a response header)
+// whose Go variable name equals an identifier of the generated function.
+func hasParamNamedLikeLocal(d *m.Design) bool {
+	return eachMethod(d, func(s *m.Service, meth *m.Method) bool {
+		if meth.HTTP == nil {
+			return false
+		}
+		h := meth.HTTP
+		for _, ms := range [][]m.Mapping{h.Path, h.Query, h.Headers} {
+			for _, mp := range ms {
+				if GeneratedLocals[lowerCamel(mp.Attr)] {
+					return true
+				}
+			}
+		}
+		for _, r := range h.Responses {
+			for _, mp := range r.Headers {
+				if GeneratedLocals[lowerCamel(mp.Attr)] {
+					return true
+				}
+			}
+		}
+		return false
+	})
+}
+
+func isUnion(a *m.Attr) bool { return a != nil && a.Type != nil && a.Type.Kind == m.Union }
+
+// hasUnionInInlineObject: a OneOf attribute inside an inline object attribute
+// (an object below a payload, result or user type that is not a user type itself).
+func hasUnionInInlineObject(d *m.Design) bool {
+	for _, t := range d.Types {
+		if inlineObjectHolds(t.Attr, 0, isUnion) {
+			return true
+		}
+	}
+	return eachMethod(d, func(s *m.Service, meth *m.Method) bool {
+		return inlineObjectHolds(meth.Payload, 0, isUnion) || inlineObjectHolds(meth.Result, 0, isUnion)
+	})
+}
+
+// hasUnionInBodyFields: an explicit request Body(func(){ Attribute(..) }) listing a OneOf attribute.
+func hasUnionInBodyFields(d *m.Design) bool {
+	return eachMethod(d, func(s *m.Service, meth *m.Method) bool {
+		if meth.HTTP == nil || meth.HTTP.Body == nil || meth.HTTP.Body.Mode != "fields" || meth.Payload == nil {
+			return false
+		}
+		for _, n := range meth.HTTP.Body.Fields {
+			if f := d.FieldByName(meth.Payload, n); f != nil && isUnion(f.Attr) {
+				return true
+			}
+		}
+		return false
+	})
+}
+
+// hasBytesParamWithLength: a Bytes attribute with a length validation carried
+// in a path segment, query parameter or header.
+func hasBytesParamWithLength(d *m.Design) bool {
+	return eachMethod(d, func(s *m.Service, meth *m.Method) bool {
+		if meth.HTTP == nil || meth.Payload == nil {
+			return false
+		}
+		h := meth.HTTP
+		for _, ms := range [][]m.Mapping{h.Path, h.Query, h.Headers} {
+			for _, mp := range ms {
+				if f := d.FieldByName(meth.Payload, mp.Attr); f != nil && d.Underlying(f.Attr) == m.Bytes {
+					if v := MergedValidation(d, f.Attr); v.MinLen != nil || v.MaxLen != nil {
+						return true
+					}
+				}
+			}
+		}
+		return false
+	})
 }
 
 // hasGRPCMetadataAliasLength: request metadata mapped to an attribute whose
